@@ -108,6 +108,39 @@ theorem groups_chunking (chunks : List (List (Name × Nat))) :
     simp only [joinGroups] at ih
     rw [ih, chunkGroups, chunkGroups, List.foldr_append]
 
+/-! ### change-point detection on ragged (`str`-typed) key columns -/
+
+/-- **C12.ragged_change_iff** — on a `str`-typed key column the change-point detection of `groupby` marks a
+boundary between two adjacent rows exactly when the two names differ — also when one name is a proper
+prefix of the other (`chr1` followed by `chr10`) and whatever follows in the chunk; without the comparison
+of the row lengths a name would swallow a following name that extends it (witness). -/
+theorem ragged_change_iff (a b after : List Nat) :
+    (raggedChange true a b after = true ↔ a ≠ b) ∧
+    raggedChange false [99, 104, 114, 49] [99, 104, 114, 49, 48] [99, 104, 114, 50] = false := by
+  refine ⟨?_, by decide⟩
+  by_cases hl : a.length = b.length
+  · have hwin : ∀ j, j < a.length → (b ++ after).getD j ((b ++ after).getLast?.getD 0) = b.getD j 0 := by
+      intro j hj
+      have hjb : j < b.length := by omega
+      simp [List.getD_eq_getElem?_getD, List.getElem?_append_left hjb, List.getElem?_eq_getElem hjb]
+    simp only [raggedChange, hl, bne_self_eq_false, Bool.and_false, Bool.false_or, List.any_eq_true, List.mem_range,
+      bne_iff_ne, ne_eq]
+    constructor
+    · intro ⟨j, hj, hne⟩ hab
+      rw [hwin j (by omega), hab] at hne
+      exact hne rfl
+    · intro hab
+      refine Classical.byContradiction fun hno => hab ?_
+      apply List.ext_getElem hl
+      intro j h1 h2
+      have := fun h => hno ⟨j, by omega, h⟩
+      rw [hwin j h1] at this
+      simp only [List.getD_eq_getElem?_getD, List.getElem?_eq_getElem h1, List.getElem?_eq_getElem h2,
+        Option.getD_some] at this
+      exact Classical.byContradiction this
+  · have : a ≠ b := fun h => hl (by rw [h])
+    simp [raggedChange, hl, this]
+
 /-! ### the pull-step machine of `iter_chromosomes` under a pull-all consumer is a walk over the order -/
 
 /-- big-step form of the generator, from the top of the `for name in real_order` loop -/
